@@ -373,28 +373,38 @@ def input_copied(cls, method, param, g, pure_methods_of=None):
     fn = meths[method][0]
     from pycaption.base import CaptionSet
     cs_methods = methods_of(CaptionSet)
-    copied = False
+    copied = False               # the parameter itself was rebound to a copy: the original is out of reach
+    copy_taken = False           # a copy was bound to another name: the original stays reachable through the parameter
     problems = []
+
+    def copy_of_param(value):
+        """`deepcopy(param)` or `self.helper(param, ...)` where the helper deep-copies its first parameter first"""
+        if not isinstance(value, ast.Call):
+            return False
+        f = value.func
+        if isinstance(f, ast.Name) and f.id == "deepcopy" and len(value.args) == 1 \
+                and isinstance(value.args[0], ast.Name) and value.args[0].id == param:
+            return True
+        if isinstance(f, ast.Attribute) and isinstance(f.value, ast.Name) and f.value.id == self_name(fn) \
+                and f.attr in meths and value.args and isinstance(value.args[0], ast.Name) \
+                and value.args[0].id == param:
+            h = meths[f.attr][0]
+            hp = [a.arg for a in h.args.args if a.arg not in ("self", "cls")]
+            return bool(hp and _first_statement_copies(h, hp[0]))
+        return False
     for st in fn.body:
         if copied:
             break
-        # X = deepcopy(X)
-        if isinstance(st, ast.Assign) and len(st.targets) == 1 and isinstance(st.targets[0], ast.Name) \
-                and st.targets[0].id == param and isinstance(st.value, ast.Call):
-            f = st.value.func
-            if isinstance(f, ast.Name) and f.id == "deepcopy" and len(st.value.args) == 1 \
-                    and isinstance(st.value.args[0], ast.Name) and st.value.args[0].id == param:
-                copied = True
+        if isinstance(st, ast.Assign) and len(st.targets) == 1 and isinstance(st.targets[0], ast.Name) and copy_of_param(st.value):
+            # the parameter occurs only as the argument of the copying call (other arguments must not mention it)
+            others = [n for a in st.value.args[1:] + [k.value for k in st.value.keywords] for n in ast.walk(a)
+                      if isinstance(n, ast.Name) and n.id == param]
+            if not others:
+                if st.targets[0].id == param:
+                    copied = True                 # X = deepcopy(X)
+                else:
+                    copy_taken = True             # Y = deepcopy(X): X itself must stay untouched from here on
                 continue
-            # X = self.helper(X, ...) where helper deep-copies its first parameter first
-            if isinstance(f, ast.Attribute) and isinstance(f.value, ast.Name) and f.value.id == self_name(fn) \
-                    and f.attr in meths and st.value.args and isinstance(st.value.args[0], ast.Name) \
-                    and st.value.args[0].id == param:
-                h = meths[f.attr][0]
-                hp = [a.arg for a in h.args.args if a.arg not in ("self", "cls")]
-                if hp and _first_statement_copies(h, hp[0]):
-                    copied = True
-                    continue
         # uses of the parameter before the copy: only pure method calls on it
         for n in ast.walk(st):
             if isinstance(n, ast.Name) and n.id == param:
@@ -409,6 +419,10 @@ def input_copied(cls, method, param, g, pure_methods_of=None):
                 ok, why = is_pure_function(cs_methods[mname][0])
                 if not ok:
                     problems.append(f"CaptionSet.{mname} is not pure: {why}")
+    if not copied and copy_taken:
+        # the copy went to another name and the parameter was only read through pure methods afterwards
+        g.check(f"{label}: input deep-copied before any impure use", not problems, {"problems": problems})
+        return
     if not copied:
         # no copy at all: then everything reachable from the parameter must be used purely
         ok, why = _whole_method_pure(cls, method)
